@@ -122,8 +122,10 @@ NA['C20'] = ('no deductive obligation built: Kahn-style top_sort (multiset in-de
              'the top_sort contract is ASSUMED by the C01 proof of evaluate_full_circuit and exercised by the unregistered bounded driver vlib/bounded/C20.py (all multigraph DAGs up to 3 nodes + random, both directions, all hook combinations).')
 
 NA.pop('C20', None)
-claim('C20', 'other', 'contract-based deductive verification of Kahn-style top_sort in both directions (inductive loop invariants with ghost yielded set, counting function and prefix counts over users / operand lists; rule R2 for completeness); bounded stand-in for dfs/bfs/hooks/cycle check',
-      'Proved from the real generator source for an arbitrary well-formed circuit and both values of `inverse`: every yielded element is a gate, none is yielded twice, each is yielded strictly after all of its predecessors (operands, resp. users), '
+claim('C20', 'other', 'contract-based deductive verification of Kahn-style top_sort in both directions (inductive loop invariants with ghost yielded set, counting function and prefix counts; rule R2 for completeness) and of dfs / bfs (three-state map and work-list multiset invariants, reachability as least closed set); bounded stand-in for hooks, visiting order and the cycle check',
+      'Proved from the real generator source for an arbitrary well-formed circuit. top_sort, both values of `inverse`: every yielded element is a gate, none is yielded twice, each is yielded strictly after all of its predecessors (operands, resp. users), '
       'the work list never holds a gate twice, no KeyError/IndexError, CircuitIsCyclicalError only if no predecessor-free gate exists, and the completeness step (an unyielded gate has an unyielded predecessor), which rule R2 lifts to "every gate is yielded". '
-      'dfs, bfs, the hook discipline and check_circuit_has_no_cycles are bounded-only (all multigraph DAGs up to 3 nodes + random, all start sets, hooks that read the state map).',
-      T_ASSUME + 'background lemmas on finite counting; rule R2; work list modelled as a duplicate-free bag with arbitrary pop order (duplicate-freeness proved).', 'DESIGN.md §6 C20')
+      'dfs and bfs, both directions, from an arbitrary start sequence of gates or the default one, default hooks: every yielded gate lies in every set that contains the start gates and is closed under successors, the yielded set contains the start gates and is closed under successors '
+      '(so it is exactly the reachable set), no gate is yielded twice, nothing raises, the circuit is untouched. '
+      'The hook discipline (enter/exit order, post-order exits, unvisited hook), the visiting order and check_circuit_has_no_cycles are bounded-only (all multigraph DAGs up to 3 nodes + random, all start sets, hooks that read the state map).',
+      T_ASSUME + 'background lemmas on finite counting; rule R2; work lists modelled as bags / multisets with arbitrary pop order (sound for the stated clauses).', 'DESIGN.md §6 C20')
